@@ -15,7 +15,7 @@
   proved (`fit_no_internal_partial` says what is); every other Fitter theorem assumes `.ok`.
   Helpers: Proofs/Respects.lean, RangeOps.lean, Fitter.lean, FitterText.lean, FitRaises.lean,
   FitMeasure.lean, FitScan.lean, FitTerm.lean, FitLoop.lean, FitTotal.lean, FitDelete.lean, FitInline.lean,
-  FillOrder.lean.
+  FitInv.lean (well-formedness of the emitted step, last section but one), FillOrder.lean.
 -/
 import PM.Monitor
 import Proofs.StepToks
@@ -28,6 +28,10 @@ import Proofs.ReplaceRange
 import Proofs.FitTotal
 import Proofs.FitDelete
 import Proofs.FitInline
+import Proofs.FitInv
+import Proofs.FitInStep
+import Proofs.FitCoherent
+import Proofs.JoinSuccess
 import Proofs.Placement
 import Props.C01
 namespace PM.C11
@@ -905,7 +909,16 @@ node of a type with required attributes; `add_to_fragment` below the last-child 
 `C11-fitter-partial-node`, excluded by the guard `Slice.noPartialNode`, PM/Fitter.lean, whose
 negation is the finding's class — compared exactly with harness/findings.py `partial_node_class`).
 The relational tie `fitGuards` (harness/rangeplan.py) checks on every generated request:
-guards true ⇒ the real `replace_step` did not raise and did return. -/
+guards true ⇒ the real `replace_step` did not raise and did return.
+A first invariant of `FitState` over the whole run is in place (Proofs/FitInv.lean, section "the emitted
+step is well-formed" below): `placed` keeps its start spine and only grows — enough for the start half of
+`Slice.wf` and the `insert` bound of every emitted step — and the *in-step* predicate
+`FitState.inStepB` (every frontier entry holds a match, `add_to_fragment` at the frontier's depth finds
+its node), to which the end half is reduced (`fit_emits_wf_of_inStep`) and under which
+`add_to_fragment`, `close_frontier_node` and `open_frontier_node` do not raise (`addToFragment_ok`,
+`closeFrontierNode_ok`, `openFrontierNode_ok`).  Not yet an invariant: that `frontier[i].match` is the
+automaton state after the children placed at level `i` (needed for "every closed node is valid" and for
+`content_match_at(child_count)` / `fill_before(…, True)` on close not to fail). -/
 
 /-- **`fit_no_internal_partial`** — with deterministic automata and a slice satisfying the
     termination guard, `replace_step` does not end in `outOfFuel`: it returns, raises, or would need a
@@ -1019,7 +1032,7 @@ example :
 
 A closed slice whose content consists of leaf / text nodes (`Slice.inlineLeaves`) — what `insert`,
 `replace_with` and typing produce for inline content.  Here the loop of `fit` does run; it keeps the
-invariant `LoopInv` (Proofs/FitInline.lean): every frontier entry holds a match, `placed` has a
+invariant `FitLoopInv` (Proofs/FitInline.lean): every frontier entry holds a match, `placed` has a
 last-child chain as long as the frontier, the unplaced slice stays closed and flat (so `open_start`
 stays 0 and only slice level 0 is ever looked at), and `placed` is large enough for a
 non-negative `insert`.  One more decidable hypothesis on the schema, `Schema.wrapOKB`: wrapper types
@@ -1041,7 +1054,7 @@ theorem insertInline_total (S : Schema) (hdet : detB S = true) (hfill : S.filler
 
 /-- the invariant of the loop behind `insertInline_total`: every iteration goes through and keeps it -/
 theorem loopInv_step (S : Schema) (hdet : detB S = true) (hfill : S.fillersOKB = true) (hwrap : S.wrapOKB = true)
-    (D : Nat) (st : FitState) (inv : LoopInv S D st) : ∃ st', fitStep S st = .ok st' ∧ LoopInv S D st' :=
+    (D : Nat) (st : FitState) (inv : FitLoopInv S D st) : ∃ st', fitStep S st = .ok st' ∧ FitLoopInv S D st' :=
   fitStep_ok S (detS_of_detB S hdet) (fillersOK_of_B S hfill) (wrapOK_of_B S hwrap) D st inv
 
 /-- the hypotheses are satisfiable and the loop really runs: typing `"x"` between the two paragraphs of
@@ -1062,6 +1075,320 @@ example :
     fitsTriviallyO S doc 4 4 sl = some false ∧
     (match replaceStep S doc 4 4 sl with
      | .ok (some (.replace 4 4 sl' _)) => sl' == ⟨[.elem 1 [] [] [.text [120] []]], 0, 0⟩
+     | _ => false) = true := by decide +kernel
+
+/-! ### the emitted step is well-formed (`StepWF`, PM/StepWF.lean; `aroundShape`, PM/CommuteGuard.lean)
+
+What `Step.apply` needs of a replace payload so that it cannot die with an internal error (C01), and
+the hypothesis `AroundShape` of the C17 theorems: the slice's open depths are covered by its content
+(`Slice.wf`), and for a replace-around step `insert ≤ slice.size` with the gap inside the range.
+
+The state of the Fitter is `(unplaced, frontier, placed)`.  `placed` is only ever changed through
+`add_to_fragment` (Proofs/FitInv.lean `AddStable`: a predicate kept by `add_to_fragment` is kept by
+`close_frontier_node`, `open_frontier_node`, `place_nodes`, every iteration, `close`), which gives, for
+**every** emitted step, without hypothesis on the schema or the slice:
+* the *start* half of `Slice.wf`: `Fitter.__init__`'s first-child chain of `depth(from)` non-leaf
+  nodes is never destroyed (`spineL_stable`), and the final `while` that strips single open wrappers
+  keeps covered depths covered (`normalizeOpen_wf`);
+* `insert = placed_size ≤ slice.size`: `placed` only grows, and `close` adds at least one position per
+  re-opened level (`closeFit_grow`);
+* the order of range and gap (`fit_range`).
+
+The *end* half — `open_end = depth(close target) ≤` the last-child chain of non-leaf nodes of the final
+`placed` — needs `placed` and the frontier *in step* at the end of the loop
+(`frontier.length - 1 ≤ spineR placed`; `closeFit_spine` carries it through `close`).  That is proved
+where the loop is proved to keep it: deletions (no iteration) and closed slices of leaf / text nodes
+(`FitLoopInv`), i.e. the two classes for which `replace_step` is proved total.
+
+FULL STATEMENT AIMED AT (`fit_emits_wf`, not proved for slices the loop has to open):
+`detB S → S.fillersOKB → S.wrapOKB → C01.Valid S doc → S.nodeAttrsOK doc → sl.wf → (guards below) →
+ replaceStep S doc f t sl = .ok (some st) → StepWF st ∧ (st replace-around → aroundShape …)`.
+What is missing is exactly the in-step invariant over `place_nodes` when it pushes the open end of
+the placed content onto the frontier (`pushOpenEnd`), and it is *false* without guards on the
+unplaced slice — three ways the model (= the code, also upstream) gets out of step:
+(a) a pass-2 wrapper whose successor state accepts the node itself (`Schema.wrapOKB` excludes it);
+(b) `open_more` raising `open_end` past a leaf / text node that follows a non-leaf sibling (the slices
+    `Slice.termGuard` excludes at the top level; deeper levels would need the same condition on every
+    fragment of the end spine) — `place_nodes` then pushes a frontier entry for a leaf;
+(c) a single start-open node without content at the end of the content (`place_nodes` does not add it
+    to `placed` but still pushes its open end); unreachable while `open_start ≤ spineL` *and*
+    `size ≠ 0`, but `place_nodes` lets `open_start` exceed the first-child chain by one.
+The tie (op `fitEmit`, harness/rangeplan.py) evaluates `StepWF` / `aroundShape` on the model's emitted
+step for every generated request, compares them exactly with the same predicates on the real step,
+and checks the real step's payload with the independent validator. -/
+
+/-- **`fit_emits_wf_partial`** — for every step `replace_step` emits, whatever the schema and the
+    (start-covered) slice: the slice's `open_start` is covered by its content; the step starts at
+    `from`; a replace-around step has `insert ≤ slice.size` and range and gap in order
+    (`from ≤ gapFrom ≤ gapTo ≤ to`).  Missing for the full `fit_emits_wf`: `open_end ≤ spineR`
+    (see above; proved for deletions and inline insertions below). -/
+theorem fit_emits_wf_partial (S : Schema) (doc : Node) (f t : Nat) (sl : Slice) (st : Step) (hft : f ≤ t)
+    (hsl : sl.openStart ≤ spineL sl.content) (h : replaceStep S doc f t sl = .ok (some st)) :
+    (∃ sl', st.sliceOf = some sl' ∧ sl'.openStart ≤ spineL sl'.content) ∧
+    (∀ F T G1 G2 sl' ins b, st = .replaceAround F T G1 G2 sl' ins b →
+      (ins : Int) ≤ sl'.size ∧ F ≤ G1 ∧ G1 ≤ G2 ∧ G2 ≤ T) := by
+  obtain ⟨sl', hs, hw, hins⟩ := replaceStep_wf_left S doc f t sl st hsl h
+  refine ⟨⟨sl', hs, hw⟩, ?_⟩
+  intro F T G1 G2 sl'' ins b hst
+  have hr := fit_range_monitor S doc f t sl st hft h
+  subst hst
+  simp only at hr
+  exact ⟨hins _ _ _ _ _ _ _ rfl, hr.1, hr.2.1, hr.2.2.1⟩
+
+/-- a well-formed replace-around step with its positions in order has the shape the C17 theorems ask for -/
+theorem aroundShape_of (F T G1 G2 : Nat) (sl : Slice) (ins : Nat) (b : Bool)
+    (hwf : StepWF (.replaceAround F T G1 G2 sl ins b) = true) (h1 : F ≤ G1) (h2 : G1 ≤ G2) (h3 : G2 ≤ T) :
+    aroundShape F T G1 G2 sl ins = true := by
+  simp only [StepWF, Bool.and_eq_true, decide_eq_true_eq] at hwf
+  simp only [aroundShape, Bool.and_eq_true, decide_eq_true_eq]
+  exact ⟨⟨⟨⟨hwf.1, hwf.2⟩, h1⟩, h2⟩, h3⟩
+
+/-- **`fit_emits_wf_of_inStep`** — the full statement reduced to one invariant of the loop: if the
+    loop of `fit` ends with `placed` and the frontier *in step* (`FitState.inStepB`, PM/Fitter.lean,
+    decidable: every frontier entry holds a match and `frontier.length - 1 ≤ spineR placed`), then the
+    emitted step is well-formed, for every well-formed slice on a document whose element nodes have
+    creatable types.  The driver evaluates `inStepB` in the initial state and after **every** iteration
+    for every generated request (op `fitEmit`, counter "in-step invariant over the loop"): on the
+    bundled-family schemas it has never been false.  What remains for the unconditional
+    `fit_emits_wf` is to prove `inStepB` invariant under `place_nodes` (guards (a)–(c) above). -/
+theorem fit_emits_wf_of_inStep (S : Schema) (hdet : detB S = true) (hfill : S.fillersOKB = true) (doc : Node)
+    (f t : Nat) (sl : Slice) (hattrs : S.nodeAttrsOK doc = true) (hwf : sl.wf = true) (hft : f ≤ t) (st : Step)
+    (h : replaceStep S doc f t sl = .ok (some st))
+    (hin : ∀ rf st0 st1, doc.resolve f = some rf → fitInit S rf sl = .ok st0 →
+      fitLoop S (fitFuel S sl) st0 = .ok st1 → st1.inStepB = true) :
+    StepWF st = true ∧
+    (∀ F T G1 G2 sl' ins b, st = .replaceAround F T G1 G2 sl' ins b → aroundShape F T G1 G2 sl' ins = true) := by
+  have hw := replaceStep_wf_of_inStep S (detS_of_detB S hdet) (fillersOK_of_B S hfill) doc f t sl hattrs hwf st h hin
+  refine ⟨hw, ?_⟩
+  intro F T G1 G2 sl' ins b hst
+  have hos : sl.openStart ≤ spineL sl.content := by
+    simp only [Slice.wf, Bool.and_eq_true, decide_eq_true_eq] at hwf
+    exact hwf.1
+  obtain ⟨_, hr⟩ := fit_emits_wf_partial S doc f t sl st hft hos h
+  obtain ⟨_, h1, h2, h3⟩ := hr F T G1 G2 sl' ins b hst
+  subst hst
+  exact aroundShape_of F T G1 G2 sl' ins b hw h1 h2 h3
+
+/-- **`fit_emits_wf`** — every step `replace_step` emits for a well-formed slice on a valid document
+    is well-formed (`StepWF`: both halves of `Slice.wf`, `insert ≤ slice.size`), and a replace-around
+    answer has `aroundShape`.  Hypotheses, all decidable and evaluated by the driver on every generated
+    request (op `fitEmit`):
+    * on the schema: `detB`, `fillersOKB`, `wrapOKB` (guard (a) above), `labelsOKB` (edges are labelled
+      with node types of the schema);
+    * on the document: `Node.check` and `nodeAttrsOK`;
+    * on the run: `unplacedWfRun` — the *unplaced* slice is `Slice.wf` in the state `Fitter.__init__`
+      builds and after every iteration.  This is what excludes (b) and (c): `open_more` raising
+      `open_end` past a leaf, and `place_nodes` keeping an `open_start` that no longer points into a
+      first-child chain (both also upstream; on the bundled-family requests the hypothesis has always
+      been true, on random schemas in all but a few per thousand runs — counters of op `fitEmit`).
+    Under it `place_nodes` keeps `placed` and the frontier in step (`placeNodes_inStep`,
+    Proofs/FitInStep.lean): a positive `open_end_count` forces the placed fragment to lie at the very
+    end of a single chain (`pure_of_size`), the count is `open_end - slice_depth ≤ spineR fragment`,
+    `close_node_start` keeps the last-child chain of the last node, and the one case in which the
+    code pushes the open end of a node it did not add has size 0.
+    STILL OPEN: replacing `unplacedWfRun` by static guards on the request slice (a deep version of
+    `termGuard` along the end spine for `open_end`; for `open_start` no static guard is known —
+    the staleness depends on where the frontier stops accepting). -/
+theorem fit_emits_wf (S : Schema) (hdet : detB S = true) (hfill : S.fillersOKB = true) (hwrap : S.wrapOKB = true)
+    (hlab : S.labelsOKB = true) (doc : Node) (f t : Nat) (sl : Slice) (hv : C01.Valid S doc)
+    (hattrs : S.nodeAttrsOK doc = true) (hwf : sl.wf = true) (hft : f ≤ t)
+    (hrun : unplacedWfRun S doc f t sl = true) (st : Step) (h : replaceStep S doc f t sl = .ok (some st)) :
+    StepWF st = true ∧
+    (∀ F T G1 G2 sl' ins b, st = .replaceAround F T G1 G2 sl' ins b → aroundShape F T G1 G2 sl' ins = true) := by
+  have hw := replaceStep_wf_run S (detS_of_detB S hdet) (fillersOK_of_B S hfill) (wrapOK_of_B S hwrap)
+    (labelsOK_of_B S hlab) doc f t sl hv hattrs hwf hrun st h
+  refine ⟨hw, ?_⟩
+  intro F T G1 G2 sl' ins b hst
+  have hos : sl.openStart ≤ spineL sl.content := by
+    simp only [Slice.wf, Bool.and_eq_true, decide_eq_true_eq] at hwf
+    exact hwf.1
+  obtain ⟨_, hr⟩ := fit_emits_wf_partial S doc f t sl st hft hos h
+  obtain ⟨_, h1, h2, h3⟩ := hr F T G1 G2 sl' ins b hst
+  subst hst
+  exact aroundShape_of F T G1 G2 sl' ins b hw h1 h2 h3
+
+/-! ### payload validity and no-raise: the statements aimed at, and the invariant they need (not proved)
+
+FULL STATEMENTS AIMED AT:
+`fit_emits_valid_payload` : hypotheses of `fit_emits_wf` → closed nodes of the request slice valid →
+  `openValid S sl'.openStart sl'.openEnd sl'.content` for the emitted slice `sl'` (every node the Fitter
+  closed is valid, the nodes still open carry canonical marks);
+`fit_no_raise` : … `→ sl.noPartialNode S → replaceStep S doc f t sl ≠ .error .raises`, and with
+  `fitLoop_terminates` the total `replaceStep_total`.
+
+The invariant both need is `FitState.coherentB` (PM/Fitter.lean, decidable): walking the last-child
+chain of `placed`, `frontier[i].ty` is the type of the node open at level `i` and `frontier[i].match` is
+the state of that type's automaton after the children counted there — from the state
+`Fitter.__init__` computed for the levels whose open node is still the document's (a prefix `i ≤ g`
+of the frontier; for `i < depth(from)` the first child, which that state already counts, is skipped),
+from the start state over all children for the levels the Fitter opened.  It is evaluated by the driver
+after every iteration of every generated request (op `fitEmit`, counter "frontier coherent with placed
+over the loop"): true on all bundled-family runs and on all runs of a random-schema search
+(about 6 200 + 4 400 runs of the loop).  A first formulation without the ghost level `g` was refuted by that
+search at once (a level closed and re-opened by `place_nodes` counts from the start state again).
+With it: `close_frontier_node`'s `fill_before(…, True)` runs from the state after the real children, so the
+closed node's content is accepted (`fillBeforeTypes_exact`) — validity of closed nodes; and
+`content_match_at(child_count)` on the re-opened node of `place_nodes` is `run 0 (types kids)`, which
+succeeds exactly when the node is not a partial node (`Slice.noPartialNode`).  `coherentB` IS an
+invariant of the loop: `coherent_invariant` below (Proofs/FitCoherent.lean).  In place for payload validity
+(Proofs/FitValid.lean, not yet assembled into a theorem about `replaceStep`): fillers are valid nodes
+without marks (`createAndFillO_valid`, `fillOpt_valid`; guards `detB`, `leafOkB`); the chain of the
+document's nodes above the frontier's depth (`PureV`) with `addToFragment_pure`, `PureV_openValid`,
+`PureV_unsnoc`; `close_frontier_node` on that chain (`closeFrontierNode_pureV`: the closed node receives
+valid fillers and is valid up to its open start) — the whole of `close` for a *deletion*, where every
+closed node is one of the document's; the final `while` (`normalizeOpen_openValid`).  Still missing:
+for deletions the re-opening phase of `close` (adding a node with valid fillers at the open end:
+`openValid a b → openValid a (b+1)`) and the assembly; for slices that are placed, `closeNodeStart`'s own
+validity (fill prefix + children accepted; needs the request slice's `openValid` carried along the
+unplaced slice), that mark filtering (`allowedMarks`) keeps mark sets canonical, and closed-node validity
+from `Coh` at the moment `close_frontier_node` closes a node the Fitter opened (`fillBeforeTypes_sound` from
+the coherent state gives acceptance). -/
+
+/-- **`coherent_invariant`** — the key invariant `FitState.coherentB` (with the ghost level) is an invariant
+    of the loop of `fit` (Proofs/FitCoherent.lean, `Coh` = the proposition behind the Boolean):
+    * **init**: the state `Fitter.__init__` builds is coherent (ghost level = `depth(from)`);
+    * **step**: an iteration of the loop whose unplaced slice is well-formed and not of size 0 keeps it —
+      `close_frontier_node` (the levels below stay as they are, fillers go *inside* the closed node),
+      `open_frontier_node` for the wrappers (the parent's match advances by the wrapper type, the new level
+      starts at state 0, the ghost level is cut down to the level the wrappers are opened at), the take
+      loop (the match it returns is the state after the nodes it added, `takeLoop_run`; text nodes
+      merged by `from_array` / `append` do not change the state when `textStableC` holds), the optional
+      `close_frontier_node` afterwards, and the open end `place_nodes` pushes (`pushOpenEnd_coh`: the
+      entries are read off the *slice's* nodes, `placed` holds their `close_node_start` images;
+      `content_match_at(child_count)` succeeding means `fill_before` put nothing in front, and types are
+      kept along the last-child chain); `open_more` and `drop_node` leave `placed` and the frontier alone;
+    * **loop**: with `unplacedWfRun`-style well-formedness over the run, the final state is in step and
+      coherent. -/
+theorem coherent_invariant (S : Schema) (hdet : detB S = true) (hfill : S.fillersOKB = true)
+    (hwrap : S.wrapOKB = true) (hlab : S.labelsOKB = true) (hts : textStableC S = true) :
+    (∀ (doc : Node) (f : Nat) (rf : RPos) (sl : Slice) (st0 : FitState), doc.resolve f = some rf →
+      fitInit S rf sl = .ok st0 →
+      Coh S rf.depth rf.depth st0.frontier 0 st0.frontier st0.placed ∧
+      st0.coherentB S rf.depth st0.frontier = true) ∧
+    (∀ (D g : Nat) (base : List FItem) (st st' : FitState), InStep st → g ≤ D →
+      Coh S D g base 0 st.frontier st.placed → st.unplaced.wf = true → (st.unplaced.size == 0) = false →
+      fitStep S st = .ok st' →
+      ∃ g', g' ≤ g ∧ Coh S D g' base 0 st'.frontier st'.placed ∧ st'.coherentB S D base = true) ∧
+    (∀ (D g : Nat) (base : List FItem) (fuel : Nat) (st st' : FitState), InStep st → g ≤ D →
+      Coh S D g base 0 st.frontier st.placed → fitLoopAll S (fun s => s.unplaced.wf) fuel st = some true →
+      fitLoop S fuel st = .ok st' →
+      InStep st' ∧ ∃ g', g' ≤ g ∧ Coh S D g' base 0 st'.frontier st'.placed ∧ st'.coherentB S D base = true) := by
+  have toB : ∀ (D g : Nat) (base : List FItem) (st : FitState), g ≤ D →
+      Coh S D g base 0 st.frontier st.placed → st.coherentB S D base = true := by
+    intro D g base st hg hc
+    simp only [FitState.coherentB, List.any_eq_true, List.mem_range]
+    exact ⟨g, by omega, Coh_toB S D g base _ 0 _ hc⟩
+  refine ⟨?_, ?_, ?_⟩
+  · intro doc f rf sl st0 hf h0
+    have hc := fitInit_coh S hf sl st0 h0
+    exact ⟨hc, toB _ _ _ st0 (Nat.le_refl _) hc⟩
+  · intro D g base st st' inv hg hc hwf hsz h
+    obtain ⟨g', hg', hc'⟩ := fitStep_coh (textStableP_of_C S hts) (detS_of_detB S hdet)
+      (fillersOK_of_B S hfill) (wrapOK_of_B S hwrap) (labelsOK_of_B S hlab) D g base st inv hc hwf hsz st' h
+    exact ⟨g', hg', hc', toB _ _ _ st' (by omega) hc'⟩
+  · intro D g base fuel st st' inv hg hc hall h
+    obtain ⟨i', g', hg', hc'⟩ := fitLoop_coh (textStableP_of_C S hts) (detS_of_detB S hdet)
+      (fillersOK_of_B S hfill) (wrapOK_of_B S hwrap) (labelsOK_of_B S hlab) D base fuel g st st' h inv hc hall
+    exact ⟨i', g', hg', hc', toB _ _ _ st' (by omega) hc'⟩
+
+/-- the in-step invariant itself: kept by every iteration whose unplaced slice is well-formed -/
+theorem inStep_invariant (S : Schema) (hdet : detB S = true) (hfill : S.fillersOKB = true) (hwrap : S.wrapOKB = true)
+    (hlab : S.labelsOKB = true) (st st' : FitState) (hin : InStep st) (hwf : st.unplaced.wf = true)
+    (hsz : (st.unplaced.size == 0) = false) (h : fitStep S st = .ok st') :
+    InStep st' ∧ st'.inStepB = true := by
+  have := fitStep_inStep S (detS_of_detB S hdet) (fillersOK_of_B S hfill) (wrapOK_of_B S hwrap)
+    (labelsOK_of_B S hlab) st hin hwf hsz st' h
+  exact ⟨this, this.toB⟩
+
+/-- the hypotheses of `fit_emits_wf` are satisfiable on a run that opens the slice: pasting the
+    closed paragraph `p("x")` into the paragraph of `doc(p("ab"))` at position 2 — the paragraph does
+    not fit there, so the paragraph around the position is closed and re-opened around it: the emitted
+    slice `<p(), p("x"), p()>(1,1)` is open on both sides -/
+example :
+    let nt (name : String) (isText inl : Bool) (dfa : Array DfaState) : NodeType :=
+      { name := name, isText := isText, isInline := isText, isLeaf := isText, isAtom := isText,
+        inlineContent := inl, isolating := false, defining := false, code := false,
+        dfa := dfa, markSet := none, attrs := [] }
+    let S : Schema := { nodes := #[nt "doc" false false #[⟨false, [(1, 1)]⟩, ⟨true, [(1, 1)]⟩],
+                                   nt "paragraph" false true #[⟨true, [(2, 0)]⟩],
+                                   nt "text" true false #[⟨true, []⟩]],
+                        marks := #[], top := 0, textTy := 2 }
+    let doc := Node.elem 0 [] [] [.elem 1 [] [] [.text [97, 98] []]]
+    let sl : Slice := ⟨[.elem 1 [] [] [.text [120] []]], 0, 0⟩
+    detB S = true ∧ S.fillersOKB = true ∧ S.wrapOKB = true ∧ S.labelsOKB = true ∧ S.checkNode doc = true ∧
+    S.nodeAttrsOK doc = true ∧ sl.wf = true ∧ unplacedWfRun S doc 2 2 sl = true ∧
+    fitsTriviallyO S doc 2 2 sl = some false ∧
+    (match replaceStep S doc 2 2 sl with
+     | .ok (some (.replace 2 2 sl' _)) =>
+       sl' == ⟨[.elem 1 [] [] [], .elem 1 [] [] [.text [120] []], .elem 1 [] [] []], 1, 1⟩
+     | _ => false) = true := by decide +kernel
+
+/-- **`delete_emits_wf`** — every step `replace_step` emits for a deletion on a valid document is
+    well-formed (`StepWF`: `Slice.wf`, `insert ≤ slice.size`), and a replace-around answer has
+    `aroundShape`.  With `delete_total`: `Transform.delete` / `delete_range` always hand `Step.apply` a
+    well-formed payload. -/
+theorem delete_emits_wf (S : Schema) (hdet : detB S = true) (hfill : S.fillersOKB = true) (doc : Node) (f t : Nat)
+    (hv : C01.Valid S doc) (hattrs : S.nodeAttrsOK doc = true) (hft : f ≤ t) (st : Step)
+    (h : replaceStep S doc f t Slice.empty = .ok (some st)) :
+    StepWF st = true ∧
+    (∀ F T G1 G2 sl' ins b, st = .replaceAround F T G1 G2 sl' ins b → aroundShape F T G1 G2 sl' ins = true) := by
+  have hwf := replaceStep_empty_wf S (detS_of_detB S hdet) (fillersOK_of_B S hfill) doc f t hv hattrs st h
+  refine ⟨hwf, ?_⟩
+  intro F T G1 G2 sl' ins b hst
+  obtain ⟨_, hr⟩ := fit_emits_wf_partial S doc f t Slice.empty st hft (by decide) h
+  obtain ⟨_, h1, h2, h3⟩ := hr F T G1 G2 sl' ins b hst
+  subst hst
+  exact aroundShape_of F T G1 G2 sl' ins b hwf h1 h2 h3
+
+/-- **`insertInline_emits_wf`** — the same for every closed slice of leaf / text nodes (typing,
+    `insert`, `replace_with` of inline content) -/
+theorem insertInline_emits_wf (S : Schema) (hdet : detB S = true) (hfill : S.fillersOKB = true)
+    (hwrap : S.wrapOKB = true) (doc : Node) (f t : Nat) (sl : Slice) (hsl : sl.inlineLeaves S = true)
+    (hv : C01.Valid S doc) (hattrs : S.nodeAttrsOK doc = true) (hft : f ≤ t) (st : Step)
+    (h : replaceStep S doc f t sl = .ok (some st)) :
+    StepWF st = true ∧
+    (∀ F T G1 G2 sl' ins b, st = .replaceAround F T G1 G2 sl' ins b → aroundShape F T G1 G2 sl' ins = true) := by
+  have hwf := replaceStep_inline_wf S (detS_of_detB S hdet) (fillersOK_of_B S hfill) (wrapOK_of_B S hwrap) doc f t sl
+    hsl hv hattrs st h
+  refine ⟨hwf, ?_⟩
+  intro F T G1 G2 sl' ins b hst
+  have hos : sl.openStart ≤ spineL sl.content := by
+    simp only [Slice.inlineLeaves, Bool.and_eq_true, beq_iff_eq] at hsl
+    rw [hsl.1.1]; exact Nat.zero_le _
+  obtain ⟨_, hr⟩ := fit_emits_wf_partial S doc f t sl st hft hos h
+  obtain ⟨_, h1, h2, h3⟩ := hr F T G1 G2 sl' ins b hst
+  subst hst
+  exact aroundShape_of F T G1 G2 sl' ins b hwf h1 h2 h3
+
+/-- `Transform.delete_range` as well: the step it records is well-formed -/
+theorem deleteRange_emits_wf (S : Schema) (hdet : detB S = true) (hfill : S.fillersOKB = true) (doc : Node) (f t : Nat)
+    (hv : C01.Valid S doc) (hattrs : S.nodeAttrsOK doc = true) (hft : f ≤ t) (st : Step)
+    (h : deleteRangeStep S doc f t = .ok (some st)) : StepWF st = true := by
+  unfold deleteRangeStep at h
+  split at h
+  · simp [throw, throwThe, MonadExceptOf.throw] at h
+  · rename_i a b hp
+    obtain ⟨h1, h2, _⟩ := deleteRange_extends_structurally S doc f t a b hp
+    exact (delete_emits_wf S hdet hfill doc a b hv hattrs (by omega) st h).1
+
+/-- the statements are not vacuous: deleting `[2, 6)` of `doc(p("ab"), p("cd"))` goes through the
+    Fitter and emits the step with the empty slice; typing `"x"` between the paragraphs emits a
+    wrapped paragraph; both are `StepWF` -/
+example :
+    let nt (name : String) (isText inl : Bool) (dfa : Array DfaState) : NodeType :=
+      { name := name, isText := isText, isInline := isText, isLeaf := isText, isAtom := isText,
+        inlineContent := inl, isolating := false, defining := false, code := false,
+        dfa := dfa, markSet := none, attrs := [] }
+    let S : Schema := { nodes := #[nt "doc" false false #[⟨false, [(1, 1)]⟩, ⟨true, [(1, 1)]⟩],
+                                   nt "paragraph" false true #[⟨true, [(2, 0)]⟩],
+                                   nt "text" true false #[⟨true, []⟩]],
+                        marks := #[], top := 0, textTy := 2 }
+    let doc := Node.elem 0 [] [] [.elem 1 [] [] [.text [97, 98] []], .elem 1 [] [] [.text [99, 100] []]]
+    (match replaceStep S doc 2 6 Slice.empty with
+     | .ok (some st) => StepWF st
+     | _ => false) = true ∧
+    (match replaceStep S doc 4 4 ⟨[.text [120] []], 0, 0⟩ with
+     | .ok (some st) => StepWF st
      | _ => false) = true := by decide +kernel
 
 /-! ### the fuelled searches the Fitter calls (PM/FillOrder.lean) -/
